@@ -272,6 +272,12 @@ func c15Pieces(thorough bool) []piece {
 			add(piece{cell: cellKey("t", m, pc.name, "-"), ctrl: "~" + pc.text + m + "t", args: append([]fArg{}, pc.pre...), colDep: true})
 		}
 	}
+	// --- ~newline : the newline and the blanks that follow are ignored (: keeps the blanks, @ keeps the newline)
+	for _, m := range []string{"", ":", "@"} {
+		for _, w := range []struct{ name, text string }{{"blanks", "   "}, {"none", ""}, {"tab-blank", "\t "}, {"second-newline", " \n "}} {
+			add(piece{cell: cellKey("newline", m, "none", w.name), ctrl: "~" + m + "\n" + w.text})
+		}
+	}
 	// --- ~P
 	pArgs := []argClass{{"one", []fArg{aInt(1)}}, {"int0", []fArg{aInt(0)}}, {"two", []fArg{aInt(2), aInt(-1)}},
 		{"big+", []fArg{aBig(pow2(70))}}, {"string", []fArg{aStr("1")}}, {"nil", []fArg{aNil()}}, {"symbol", []fArg{aSym("one")}}}
@@ -458,6 +464,16 @@ func c15ContextCells() []ctxCell {
 		add(cellKey("&", "", pn, "-")+" ctx=at-start", "~"+pc+"&x")
 		add(cellKey("&", "", pn, "-")+" ctx=after-directive-output", "~a~"+pc+"&x", aStr("line\n"))
 		add(cellKey("%", "", pn, "-")+" ctx=after-text", "abc~"+pc+"%x")
+	}
+	// --- ~newline in context
+	for _, m := range []string{"", ":", "@"} {
+		add(cellKey("newline", m, "none", "-")+" ctx=between-text", "ab~"+m+"\n   cd")
+		add(cellKey("newline", m, "none", "-")+" ctx=at-end", "ab~"+m+"\n  ")
+		add(cellKey("newline", m, "none", "-")+" ctx=before-directive", "ab~"+m+"\n  ~a|", aInt(5))
+		add(cellKey("newline", m, "none", "-")+" ctx=in-conditional", "<~[x~"+m+"\n  y~;z~]>", aInt(0))
+		add(cellKey("newline", m, "none", "-")+" ctx=in-iteration", "<~{~a~"+m+"\n  ,~}>", aList(aInt(1), aInt(2)))
+		add(cellKey("newline", m, "none", "-")+" ctx=then-freshline", "ab~"+m+"\n  ~&x")
+		add(cellKey("newline", m, "none", "-")+" ctx=then-tab", "ab~"+m+"\n  ~6t|")
 	}
 	// --- ~T (slip documents: colinc is the column width, colnum counts columns)
 	for _, m := range []string{"", "@"} {
